@@ -243,6 +243,8 @@ class Scope:
         return self
 
     async def __aexit__(self, exc_type, exc_val, exc_tb) -> bool:
+        # do not hold on to the frames that an exception has unwound
+        del exc_tb
         # there was no exception, we regularly exited the loop body
         # we wait for our children to finish or some interrupt to happen
         if exc_type is None:
@@ -304,6 +306,10 @@ class Scope:
             # propagate it
             return True
         elif self._is_suppressed(exc_val) or exc_type is None:
+            if exc_val is not None:
+                # our interrupt is handled: do not keep the frames that it has unwound
+                # alive via the reference cycle of the interrupt and its scope
+                exc_val.__traceback__ = None
             # our own interrupt may have replaced a foreign interrupt that was already
             # unwinding the body, e.g. while suspended in the ``__aexit__`` of an
             # inner block. If that one is still valid (not revoked), it is not ours
@@ -332,17 +338,26 @@ class Scope:
                     raise replaced
                 finally:
                     replaced.__context__ = context
+                    del replaced, context, exc_val
             # we do not have an exception to propagate, take whatever we can get
             privileged, concurrent = self._collect_exceptions()
             if privileged is not None or concurrent is not None:
-                raise privileged or concurrent
+                try:
+                    raise privileged or concurrent
+                finally:
+                    # a failure referenced by a frame of its own traceback lives - with
+                    # all frames that it or our interrupt has unwound - until collected
+                    del privileged, concurrent, exc_val, replaced
             # we handled our own and there was nothing else to propagate
             return False
         else:
             # we already have an exception to propagate, take only important ones
             privileged, _ = self._collect_exceptions()
             if privileged is not None:
-                raise privileged
+                try:
+                    raise privileged
+                finally:
+                    del privileged, exc_val
             # we still have our unhandled exception to propagate
             return True
 
